@@ -194,11 +194,18 @@ def ascii_dec_facts(b):
     return [z3.Length(s) == z3.Length(b), z3.Implies(is_ascii_b(b), z3.And(ascii_enc(s) == b, is_ascii_s(s)))]
 
 
+_utf8 = z3.Function("utf8_encode", StrS, BytesS)
+
+
 @R.spec("spec.str_encode", doc="s.encode('ascii'): raises UnicodeEncodeError unless is_ascii_s(s); else ascii_enc(s), same length, "
         "ascii_dec inverse.  Other codecs: opaque bytes")
 def str_encode(E, st, args, kw):
     s = args[0]
     codec = _const_str(args[1]) if len(args) > 1 else "utf-8"
+    if codec == "utf-8":
+        # a function of the text; fails only for text that is not valid unicode (lone surrogates)
+        s2 = st.fork()
+        return [Res(st, VBytes(_utf8(s.e))), E.raise_(s2, "builtins.UnicodeEncodeError")]
     if codec != "ascii":
         return [Res(st, VBytes(fresh("encoded", BytesS)))]
     out = []
@@ -215,6 +222,11 @@ def str_encode(E, st, args, kw):
 def bytes_decode(E, st, args, kw):
     b = args[0]
     codec = _const_str(args[1]) if len(args) > 1 else "utf-8"
+    if codec == "utf-8":
+        t = z3.Function("utf8_decode", BytesS, StrS)(b.e)
+        s2 = st.fork()
+        st.assume(_utf8(t) == b.e)         # on success the bytes are the UTF-8 encoding of the text
+        return [Res(st, VStr(t)), E.raise_(s2, "builtins.UnicodeDecodeError")]
     if codec != "ascii":
         out = [Res(st, VStr(fresh("decoded", StrS)))]
         s2 = st.fork()
